@@ -100,6 +100,15 @@ func runC03(c *Ctx) {
 			}
 			return (isGen(a) && blkHdr("GeneratorAddress").Match(b)) || (isGen(b) && blkHdr("GeneratorAddress").Match(a))
 		}}, true)},
+		{"total transactions size <= configured maximum", func(fs []Fact) (bool, string) {
+			for _, f := range fs {
+				if f.IsCmp && (f.Op.String() == "<=" || f.Op.String() == "<") && strings.Contains(f.L.String(), "Transaction).Size(") && f.L.Any(func(t *Term) bool { return t.Op == "phi" }) &&
+					(strings.Contains(f.R.String(), "Chain).MaxTransactionsLength(") || strings.Contains(f.R.String(), ".maxTransactionsLength")) {
+					return true, f.String()
+				}
+			}
+			return false, ""
+		}},
 		{"maxHeightPrevoted == own value", cmp(CmpSpec{A: blkHdr("MaxHeightPrevoted"), B: IsResult("(*consensus/liskbft.API).GetBFTHeights", 0), Rel: EQ, D: 0})},
 		{"not contradicting", boolF(IsResult("(*consensus/liskbft.API).IsHeaderContradictingChain", 0), false)},
 		{"signature valid", boolF(Matcher{"VerifySignature(chainID, slot generator's key)", func(t *Term) bool {
@@ -158,6 +167,21 @@ func runC03(c *Ctx) {
 			return strings.Contains(s, "BFTParams).ValidatorsHash(") && strings.Contains(s, "GetBFTParameters(") && strings.Contains(s, ".Header.Height + 1)") && strings.Contains(s, ".Header.ValidatorsHash")
 		}}, true)
 		c.Require("C03.V reject-edge", FuncKey(procV)+": validatorsHash == hash of parameters at height+1", p.InstrPos(ab), "AddBlock dominated by the validatorsHash comparison (against the staged store after execution)", okVH, wVH)
+		// … and the parameters compared are read after the block was executed: executing the
+		// block is what stores the parameters of height+1 into the staged store
+		{
+			execs := CallsIn(procV, "(*consensus.stateExecuter).Execute")
+			gets := CallsIn(procV, "(*consensus/liskbft.API).GetBFTParameters")
+			okOrder := len(execs) == 1 && len(gets) >= 1
+			det := ""
+			for _, g := range gets {
+				if len(execs) == 1 && !instrDominates(execs[0].Call, g.Call) {
+					okOrder = false
+					det = "GetBFTParameters at " + p.InstrPos(g.Call) + " is not preceded by the execution at " + p.InstrPos(execs[0].Call)
+				}
+			}
+			c.Require("C03.V reject-edge", FuncKey(procV)+": validatorsHash compared after execution", p.InstrPos(ab), "the parameters of height+1 are read from the staged store after abi.Execute wrote them", okOrder, det)
+		}
 		maxEv, _ := p.constValue("pkg/blockchain", "MaxEventsPerBlock")
 		okEv := false
 		for _, f := range pf.FactsAt(blk) {
